@@ -471,3 +471,12 @@ Fixpoint okDupArgs (args : list bytes) : bool :=
     (if bytes_eqb a lit_duplicate_packets then match r with v :: _ => dup_value_ok v | [] => false end else true)
     && okDupArgs r
   end.
+
+(** * C09: values the server cannot honour (the property's words, literal numbers) *)
+Definition unhonourable (o : topt) : bool :=
+  match o_type o with
+  | OBlkSize => (o_val o <? 8) || (65464 <? o_val o)
+  | OTimeout => (o_val o =? 0) || (255 <? o_val o)
+  | OWindowSize => (o_val o =? 0) || (65535 <? o_val o)
+  | OTSize => false
+  end.
